@@ -571,8 +571,18 @@ impl CloseGroupValidator {
             self.validate_trust_weighted(responses, &mut result);
         }
 
-        // Check geographic diversity
-        let regions = self.count_confirming_regions(responses);
+        // Check geographic diversity. In attack mode only sufficiently trusted
+        // witnesses count, for the region spread just as for the quorum itself.
+        let regions = if use_bft {
+            let trusted: Vec<CloseGroupResponse> = responses
+                .iter()
+                .filter(|r| r.peer_trust_score.unwrap_or(0.0) >= self.config.min_witness_trust)
+                .cloned()
+                .collect();
+            self.count_confirming_regions(&trusted)
+        } else {
+            self.count_confirming_regions(responses)
+        };
         result.confirming_regions = regions;
         if regions < self.config.min_regions && result.is_valid {
             // Only fail on diversity if we were otherwise valid
